@@ -14,7 +14,8 @@ import time
 from mbt import batch, tlc
 from real import procs
 
-KNOWN = {"C11.gevent-worker-with-non-cooperative-body-never-notices": "gevent-noncooperative"}
+KNOWN = {"C11.gevent-worker-with-non-cooperative-body-never-notices": "gevent-noncooperative",
+         "C11.worker-kept-alive-by-a-thread-or-exit-hook-of-the-remote-code": "lingering-user-thread-or-exit-hook"}
 
 
 def run_driver(scenarios, death, results, lock):
@@ -111,7 +112,8 @@ def run(ctx):
     base += [{"env": "busy", "execmodel": "main_thread_only", "topo": "popen"}, {"env": "swallow", "execmodel": "main_thread_only", "topo": "python"},
              {"env": "receive", "execmodel": "thread", "topo": "via"}, {"env": "sleep", "execmodel": "thread", "topo": "via"},
              {"env": "busy", "execmodel": "thread", "topo": "socket"}, {"env": "receive", "execmodel": "gevent", "topo": "popen"},
-             {"env": "sleep", "execmodel": "gevent", "topo": "popen"}, {"env": "busy", "execmodel": "gevent", "topo": "popen"}]
+             {"env": "sleep", "execmodel": "gevent", "topo": "popen"}, {"env": "busy", "execmodel": "gevent", "topo": "popen"},
+             {"env": "nondaemon", "execmodel": "thread", "topo": "popen"}, {"env": "atexit_hang", "execmodel": "thread", "topo": "popen"}]
     plans = [(base, "sigkill")]
     second = [dict(s) for s in rng.sample(base[:13], 6)]
     plans.append((second, "close"))
